@@ -6,5 +6,8 @@ pub mod headers;
 pub mod modular;
 pub mod frame;
 pub mod model;
+pub mod patches;
 pub mod icc;
 pub mod jpeg;
+pub mod afv_table;
+pub mod transforms;
